@@ -63,23 +63,23 @@ OPS_BY_PROP = {
                                                  'set_phase', 'restart', 'churn', 'link_with', 'unlink'],
     'C10': ['read_flow'] * 6 + ['set_flow'] * 4 + ['churn'] * 2 + ['mix_from', 'copy', 'restart',
                                                                   'set_phases', 'bad_key', 'view'],
-    'C11': ['read_flow', 'read_total', 'set_flow', 'set_flow', 'set_total', 'set_T', 'set_P', 'set_phase',
+    'C11': ['move_phase', 'read_flow', 'read_total', 'set_flow', 'set_flow', 'set_total', 'set_T', 'set_P', 'set_phase',
             'set_phases', 'link_with', 'unlink', 'proxy', 'flow_proxy', 'copy_like', 'copy', 'restart',
             'reset_cache', 'view', 'scale', 'mix_from', 'bad_units', 'churn', 'reduce_phases', 'empty',
             'split_to', 'check_views', 'check_views'],
     'C02': ['set_energy'] * 5 + ['mix_energy'] * 5 + ['separate_energy'] * 2 + ['set_T', 'set_T', 'set_P', 'set_flow',
             'set_flow', 'scale', 'read_prop', 'read_prop', 'proxy', 'copy', 'restart', 'link_with', 'unlink',
             'flow_proxy', 'reset_cache', 'set_phase'],
-    'C12': ['set_phases'] * 4 + ['reduce_phases', 'as_stream', 'touch_solver', 'touch_solver', 'view_write',
+    'C12': ['move_phase'] + ['set_phases'] * 4 + ['reduce_phases', 'as_stream', 'touch_solver', 'touch_solver', 'view_write',
             'view_write', 'view_write', 'save_data', 'restore_data', 'restore_data', 'set_flow', 'set_flow',
             'set_T', 'set_P', 'restart', 'view', 'copy', 'mix_from', 'scale', 'empty', 'copy_like', 'link_with',
             'unlink', 'reset_cache'],
-    'C13': ['copy', 'copy', 'copy_like', 'copy_like', 'copy_flow', 'copy_thermal_condition', 'copy_phase', 'proxy',
+    'C13': ['move_phase', 'copy', 'copy', 'copy_like', 'copy_like', 'copy_flow', 'copy_thermal_condition', 'copy_phase', 'proxy',
             'proxy', 'flow_proxy', 'flow_proxy', 'link_with', 'link_with', 'link_with', 'unlink', 'unlink', 'view',
             'restart', 'pickle_obj', 'set_flow', 'set_flow', 'set_flow', 'set_T', 'set_P', 'set_phase', 'scale',
             'empty', 'set_total', 'mix_from', 'split_to', 'separate_out', 'read_prop', 'read_flow', 'save_data',
             'restore_data', 'set_phases', 'churn'],
-    'C14': ['read_prop'] * 8 + BACKGROUND_MUTATORS * 2 + ['set_phase', 'set_phases', 'mix_from', 'split_to',
+    'C14': ['read_prop'] * 8 + BACKGROUND_MUTATORS * 2 + ['move_phase', 'move_phase', 'set_phase', 'set_phases', 'mix_from', 'split_to',
             'copy_like', 'link_with', 'unlink', 'proxy', 'flow_proxy', 'view', 'restart', 'reset_cache',
             'reduce_phases', 'copy', 'separate_out', 'copy_flow'],
 }
@@ -391,6 +391,14 @@ class StreamWorld(BaseWorld):
                     if m == 'phase' and not self.is_multi(a):
                         t['orig'] = s.phase
                         return {'op': 'set_phase', 'stream': a, 'phase': r.choice([x for x in 'lg' if x != s.phase] or ['g'])}
+                    if m in ('phase', 'flow') and self.is_multi(a) and len(s.phases) >= 2:
+                        src_c = [ph for ph in s.phases if dense(s.imol[ph]).any()]
+                        if src_c:
+                            src = r.choice(src_c)
+                            dst = r.choice([ph for ph in s.phases if ph != src])
+                            t['mut'] = 'move'
+                            t['orig'] = [dst, src]
+                            return {'op': 'move_phase', 'stream': a, 'src': src, 'dst': dst}
                     if m == 'flow' and not self.is_multi(a):
                         pk = self.pk(a)
                         c = r.randrange(pk.n)
@@ -417,6 +425,8 @@ class StreamWorld(BaseWorld):
                     return {'op': 'scale', 'stream': a, 'k': o, 'form': 'scale'}
                 if m == 'phase':
                     return {'op': 'set_phase', 'stream': a, 'phase': o}
+                if m == 'move':
+                    return {'op': 'move_phase', 'stream': a, 'src': o[0], 'dst': o[1]}
                 return {'op': 'set_flow', 'stream': a, 'view': 'mol',
                         'key': {'ids': o[0], 'seq': 'tuple', 'phase': None}, 'values': o[1]}
             if k == 5:
@@ -820,6 +830,16 @@ class StreamWorld(BaseWorld):
             return None
         return {'stream': nm[0], 'other': nm[1]}
 
+    def gen_move_phase(self, r):
+        nm = self.names(r, kind='multi')
+        if not nm:
+            return None
+        ph = list(self.streams[nm[0]].phases)
+        if len(ph) < 2:
+            return None
+        a, b = r.sample(ph, 2)
+        return {'stream': nm[0], 'src': a, 'dst': b}
+
     def gen_restart(self, r):
         return {'stream': self.names(r)[0]}
 
@@ -1073,7 +1093,12 @@ class StreamWorld(BaseWorld):
         if a == b or self.is_view_locked(a) and self.is_multi(b):
             return False
         if self.may_share(a, b):
-            return False      # copying a stream onto one that is (partly) the same data: not a copy
+            # copying a stream onto one that is (partly) the same data is not a copy - except between two
+            # whole single-phase streams that share their flows (flow proxy / flow-only link): then the
+            # phase and T/P still have to be copied
+            if not (not self.is_multi(a) and not self.is_multi(b) and self.fgroup[a] == self.fgroup[b]
+                    and self.meta[a]['origin'] != 'view' and self.meta[b]['origin'] != 'view'):
+                return False
         return self.pkg_of[b] in universe.SUBPACKAGES[self.pkg_of[a]]
 
     def pre_link_with(self, ev):
@@ -1140,6 +1165,11 @@ class StreamWorld(BaseWorld):
         pa, pb = self.project(a), self.project(b)
         rest = pa.total() - self.mapped(b, a, pb.total())
         return bool(rest.sum() > 1e-6)
+
+    def pre_move_phase(self, ev):
+        n = ev['stream']
+        return self.is_multi(n) and ev['src'] in self.streams[n].phases and ev['dst'] in self.streams[n].phases \
+            and ev['src'] != ev['dst']
 
     def pre_unlink(self, ev):
         return not self.is_view_locked(ev['stream'])
@@ -1249,6 +1279,8 @@ class StreamWorld(BaseWorld):
             W['f'].add(st)
         elif op == 'set_T' or op == 'set_P' or op == 'copy_thermal_condition':
             W['t'].add(st)
+        elif op == 'move_phase':
+            W['f'].add(st)
         elif op in ('set_phase', 'copy_phase'):
             W['p'].add(st)
             W['f'].add(st)
@@ -2537,6 +2569,21 @@ class StreamWorld(BaseWorld):
                       f'enthalpies is {Ha - Hb!r}', {'event': ev, 'a': pa.to_json(), 'b': pb.to_json(),
                                                      'after': after.to_json()})
         return ['ok', fl(after.T)]
+
+    def do_move_phase(self, ev):
+        """all material of one phase row is moved into another row by two keyed writes (public API)"""
+        n = ev['stream']
+        s_ = self.streams[n]
+        before = self.project(n)
+        moved = before.rows[ev['dst']] + before.rows[ev['src']]
+        r = self.call(ev, lambda: (s_.imol.__setitem__(ev['dst'], moved), s_.imol.__setitem__(ev['src'], 0.)))
+        self.touch(n)
+        if r[0] == 'exc':
+            return self.unexpected(ev, r, 'move_phase')
+        after = self.project(n)
+        if self.prop in ('C01', 'C10', 'C12') and not close(after.total(), before.total()):
+            self.fail('move-phase-total', f'{n}: totals changed by moving phase {ev["src"]} into {ev["dst"]}')
+        return 'ok'
 
     def do_restart(self, ev):
         """F4: only pickled state survives."""
